@@ -31,7 +31,11 @@ def load_known():
 
 
 def _slug(s):
-    return re.sub(r"[^A-Za-z0-9_.-]+", "_", s)[:150]
+    import hashlib
+    base = re.sub(r"[^A-Za-z0-9_.-]+", "_", s)[:120]
+    if base != s:
+        base += "-" + hashlib.sha1(s.encode()).hexdigest()[:8]
+    return base
 
 
 class Check:
